@@ -353,7 +353,12 @@ def run():
         t = tpls[case["ti"]]
         k = case.get("kind")
         if k == "panic":
-            # F9 (byte spans read as characters: the assert behind non-ASCII text) was repaired by d3106b1: every panic is a violation
+            # F9 (byte spans read as characters: the assert behind non-ASCII text) was repaired by d3106b1: a panic is a violation,
+            # except the one the rebasing defect still causes: its wrong byte span can end inside a multi-byte character, `composed`
+            # leaves such a span unconverted, and the byte offsets are past the character length
+            if (t.get("known") == "interp-rebase" and t.get("interp") and "is out of bounds of the source" in case.get("msg", "")
+                    and any(ord(ch) > 127 for ch in t["text"])):
+                return "C13-N1-interp-span-rebase"
             return None
         clauses = set(case.get("clauses", []))
         if "span-names-no-file" in clauses or "location-for-foreign-span" in clauses or "wrong-file" in clauses:
